@@ -57,8 +57,19 @@ func (s *bungeeServer) BroadcastPluginMessage(identifier message.ChannelIdentifi
 	if s == nil {
 		return
 	}
-	sinks := PlayersToSlice[message.ChannelMessageSink](s.s.Players())
-	BroadcastPluginMessage(sinks, identifier, data)
+	// The message is for the server, not for the clients of the players on it: it is sent
+	// once, through the server connection of any one player that is connected to the server.
+	s.s.Players().Range(func(p Player) bool {
+		player, ok := p.(*connectedPlayer)
+		if !ok {
+			return true
+		}
+		conn := player.connectedServer()
+		if conn == nil || !RegisteredServerEqual(conn.Server(), s.s) {
+			return true
+		}
+		return conn.SendPluginMessage(identifier, data) != nil // stop after the first delivery
+	})
 }
 func (s *bungeeServer) Connect(player bungeecord.Player) {
 	if s == nil {
